@@ -525,7 +525,11 @@ def recipes():
         nl = nb_file(S, 3, "vor" if wts else "nn")
         wf = S.files[(3, "vorw")] if wts else None
 
-        def call(b, o, meth=meth):
+        def call(b, o, meth=meth, cg=cg):
+            alt = meth.endswith("~")          # history variant: the same method with the OTHER coarse-graining flag / threshold
+            meth = meth.rstrip("~")
+            if alt:
+                cg = not cg
             if meth == "qlm_Qlm":
                 return list(b.qlm_Qlm()), {}
             if meth == "ql_Ql":
@@ -539,7 +543,7 @@ def recipes():
                 return r, f
             if meth == "sij_ql_Ql":
                 p1, p2 = (J(o, "sum.csv"), J(o, "sij.dat")) if out else (None, None)
-                r = b.sij_ql_Ql(cg, 0.7, p1, p2)
+                r = b.sij_ql_Ql(cg, 0.5 if alt else 0.7, p1, p2)
                 return r, ({p2: r} if out else {})
             if meth == "w_W_cap":
                 p1, p2 = (J(o, "w" + ext), J(o, "wcap" + ext)) if out else (None, None)
@@ -563,7 +567,8 @@ def recipes():
             return call(m_boo.boo_3d(sn, l, nl, wf, ppp, 30), o)
         return dict(name="boo_3d." + meth, par=(l, cg, wts, out, ext), thunk=thunk, call=call,
                     make=lambda: m_boo.boo_3d(sn, l, nl, wf, ppp, 30),
-                    methods=["qlm_Qlm", "ql_Ql", "sij_ql_Ql", "w_W_cap", "spatial_corr", "time_corr"])
+                    methods=["qlm_Qlm", "ql_Ql", "sij_ql_Ql", "w_W_cap", "spatial_corr", "time_corr", "ql_Ql~", "sij_ql_Ql~", "w_W_cap~",
+                             "spatial_corr~", "time_corr~"])
 
     @reg
     def r_boo2(S, rng):
@@ -580,26 +585,28 @@ def recipes():
         wf = S.files[(2, "vorw")] if wts else ""
 
         def call(b, o, meth=meth):
+            alt = meth.endswith("~")          # history variant: the same method with other arguments
+            meth = meth.rstrip("~")
             if meth == "lthorder":
                 p = J(o, "phi.npy") if out else ""
                 r = b.lthorder(p)
                 return r, ({p: r} if out else {})
             if meth == "time_average":
                 p = J(o, "tav.npy") if out else ""
-                r = b.time_average(0.4, 0.002, avc, p)     # 2 frames of 100 steps * 0.002
+                r = b.time_average(0.6 if alt else 0.4, 0.002, (not avc) if alt else avc, p)     # 2 (3) frames of 100 steps * 0.002
                 return list(r), ({p: r[0], p + ".snapshot_id.dat": r[1]} if out else {})
             if meth == "spatial_corr":
                 p = J(o, "g6.csv") if out else ""
-                r = b.spatial_corr(0.1, p)
+                r = b.spatial_corr(0.15 if alt else 0.1, p)
                 return r, ({p: r.values} if out else {})
             p = J(o, "tc.csv") if out else ""
-            r = b.time_corr(0.002, p)
+            r = b.time_corr(0.005 if alt else 0.002, p)
             return r, ({p: r.values} if out else {})
 
         def thunk(o):
             return call(m_boo.boo_2d(sn, l, nl, wf, ppp, 10), o)
         return dict(name="boo_2d." + meth, par=(l, wts, out, avc), thunk=thunk, call=call, make=lambda: m_boo.boo_2d(sn, l, nl, wf, ppp, 10),
-                    methods=["lthorder", "time_average", "spatial_corr", "time_corr"])
+                    methods=["lthorder", "time_average", "spatial_corr", "time_corr", "time_average~", "spatial_corr~", "time_corr~"])
 
     @reg
     def r_tetra(S, rng):
@@ -637,6 +644,8 @@ def recipes():
         sn, ppp, sig = S.snap(d, tri=tri), S.pool[f"ppp{d}"], S.pool[f"s2sig{d}"]
 
         def call(b, o, meth=meth):
+            alt = meth.endswith("~")          # history variant: the same method with other arguments
+            meth = meth.rstrip("~")
             if meth == "particle_s2":
                 p = J(o, "s2.npy") if out else ""
                 r = b.particle_s2(False, p)
@@ -646,16 +655,16 @@ def recipes():
                 b._vmon_done = True
             if meth == "spatial_corr":
                 p = J(o, "s2g.csv") if out else ""
-                r = b.spatial_corr(mean_norm, p)
+                r = b.spatial_corr((not mean_norm) if alt else mean_norm, p)
                 return r, ({p: r.values} if out else {})
             p = J(o, "s2t.csv") if out else ""
-            r = b.time_corr(0.002, p)
+            r = b.time_corr(0.005 if alt else 0.002, p)
             return r, ({p: r.values} if out else {})
 
         def thunk(o):
             return call(m_s2.S2(sn, sig, ppp, 0.05, 40), o)
         return dict(name="S2." + meth, par=(d, out, mean_norm, tri), thunk=thunk, call=call, make=lambda: m_s2.S2(sn, sig, ppp, 0.05, 40),
-                    methods=["particle_s2", "spatial_corr", "time_corr"])
+                    methods=["particle_s2", "spatial_corr", "time_corr", "spatial_corr~", "time_corr~"])
 
     @reg
     def r_hessian(S, rng):
